@@ -303,7 +303,7 @@ func init() {
 	CaseTiers["hist-C09"] = &CaseTier{Name: "hist-C09", Doc: doc, Run: run("C09"), Replay: replay("C09")}
 	CaseTiers["hist-C11"] = &CaseTier{Name: "hist-C11", Doc: doc, Run: run("C11"), Replay: replay("C11")}
 	Plans["C09"] = map[string][]Step{
-		"quick":    {{Tier: "hist-C09", Size: 3, Bound: 1}},
-		"thorough": {{Tier: "hist-C09", Size: 4, Bound: 1}},
+		"quick":    {{Tier: "hist-C09", Size: 3, Bound: 1}, {Tier: "redef", Size: 1, Bound: 0}},
+		"thorough": {{Tier: "hist-C09", Size: 4, Bound: 1}, {Tier: "redef", Size: 1, Bound: 0}, {Tier: "redef", Size: 0, Bound: 1}},
 	}
 }
